@@ -212,6 +212,55 @@ Eval vm_compute in map (fun p => (map (map enc) (fst p), map enc (snd p))) [
     run.sample(dict(kind="step", X=cases[0][0].tolist()[:4], nu=cases[0][3], mu=cases[0][4].tolist()))
 
 
+def check_init_model(run, tier, rng):
+    """the starting point of fit_mvstud (what max_iter=0 returns, and what a fit returns whenever nu comes out infinite) vs the Coq
+    twin `init` in exact rationals: coordinate medians, biased covariance + diag(biased variances)/n"""
+    from tempest.student import fit_mvstud
+    cases = []
+    reps = 16 if tier == "quick" else 90
+    for t in range(reps):
+        nr = np.random.RandomState(rng.randrange(2 ** 31))
+        d = rng.choice([1, 2, 3] if tier == "quick" else [1, 2, 3, 4])
+        n = rng.choice([4 * d, 4 * d + 1, 5 * d + 2, 5 * d + 3])
+        X = np.round(nr.standard_t(1.5, size=(n, d)) * 8) / 8 * rng.choice([1.0, 2.0 ** -10, 2.0 ** 10]) + rng.choice([0.0, 2.0, -64.0])
+        if t % 4 == 0:
+            X[: n // 2] = X[0]                                          # ties around the middle of the sorted column
+        mu_i, S_i, nu_i = fit_mvstud(X.copy(), max_iter=0)
+        mu_f, S_f, nu_f = fit_mvstud(X.copy())
+        cases.append((X, np.asarray(mu_i, float), np.atleast_2d(S_i), np.asarray(mu_f, float), np.atleast_2d(S_f), float(nu_f)))
+        run.case(key=("init", t), nontrivial=True)
+    items = ["(init [" + "; ".join(qlist(r) for r in c[0]) + "])" for c in cases]
+    src = f"""From Coq Require Import List QArith.
+From Tempest Require Import Model.StudentQ.
+Import ListNotations.
+Definition enc (q : Q) : Z * Z := (Qnum q, Zpos (Qden q)).
+Eval vm_compute in map (fun p => (map (map enc) (fst p), map enc (snd p))) [
+{(';' + chr(10)).join(items)}
+].
+"""
+    (ok, out), = coq_eval_many(run.scratch, [src], timeout=600)
+    if not ok:
+        run.broken.append(("init-coqc", out[-1500:]))
+        return
+    res = parse_evals(out)[0]
+    n_inf = 0
+    for (X, mu_i, S_i, mu_f, S_f, nu_f), (Sm, mm) in zip(cases, res):
+        Smod = np.array([[a / b for (a, b) in row] for row in Sm]).reshape(S_i.shape)
+        mmod = np.array([a / b for (a, b) in mm])
+        tolS = 1e-9 * np.max(np.abs(Smod)) + 1e-300
+        tolm = 1e-12 * (np.max(np.abs(X)) + 1e-300)
+        if np.max(np.abs(Smod - S_i)) > tolS or np.max(np.abs(mmod - mu_i)) > tolm:
+            run.disagree("starting point: fit_mvstud(max_iter=0) vs Coq model init (exact Q)", X=X.tolist(),
+                         impl=dict(mu=mu_i.tolist(), Sigma=S_i.tolist()), model=dict(mu=mmod.tolist(), Sigma=Smod.tolist()))
+        if not np.isfinite(nu_f):
+            n_inf += 1
+            if np.max(np.abs(Smod - S_f)) > tolS or np.max(np.abs(mmod - mu_f)) > tolm:
+                run.disagree("fit with infinite nu does not return the starting point of the Coq model", X=X.tolist(),
+                             impl=dict(mu=mu_f.tolist(), Sigma=S_f.tolist()), model=dict(mu=mmod.tolist(), Sigma=Smod.tolist()))
+    run.count("init_model_cases", len(cases))
+    run.count("init_model_cases_returned_with_infinite_nu", n_inf)
+
+
 def check_fallback(run):
     from tempest.modes import ModeStatistics
     import tempest.modes as modes
@@ -253,6 +302,21 @@ def check_per_cluster(run, rng):
             run.fail("from-particles-raises", f"{type(e).__name__}: {e}", K=K, d=d, data_seed=t)
             continue
         run.case(key=("per-cluster", t), nontrivial=True)
+        # the precision matrix the kernel reads is the inverse of the scale matrix, also for per-coordinate scalings of the data
+        for scal in (np.ones(d), 10.0 ** np.linspace(-4, 4, d) if d > 1 else np.array([1e-4]), 10.0 ** np.linspace(6, -6, d) if d > 1 else np.array([1e6])):
+            np.random.seed(t)
+            try:
+                ms2 = ModeStatistics.from_particles(u * scal, w, labels, dof_fallback=7.0)
+            except Exception as e:
+                run.fail("from-particles-raises", f"{type(e).__name__}: {e} for coordinates scaled by {scal.tolist()}", K=K, d=d, data_seed=t)
+                break
+            for k in range(K):
+                sd = np.sqrt(np.diag(ms2.covariances[k]))
+                Pm = (ms2.inv_covariances[k] @ ms2.covariances[k]) * sd[:, None] / sd[None, :]      # in the data's own units
+                if not np.allclose(Pm, np.eye(d), atol=1e-6):
+                    run.fail("precision-not-inverse-of-scale", f"mode {k}: inv_covariances @ covariances (rescaled to unit variances) = {Pm.tolist()} for coordinates scaled by {scal.tolist()}",
+                             K=K, d=d, data_seed=t)
+                    break
         for k in range(K):
             pts = u[labels == k]
             lo, hi = pts.min(axis=0) - 1e-12, pts.max(axis=0) + 1e-12
@@ -278,16 +342,37 @@ def check_fallback_end_to_end(run):
     seen = []
     orig = mut.parallel_mcmc
 
+    located = []
+
     def pm(*a, **k):
-        seen.append([float(v) for v in np.asarray(k["mode_stats"].degrees_of_freedom)])
+        ms_ = k["mode_stats"]
+        seen.append([float(v) for v in np.asarray(ms_.degrees_of_freedom)])
+        # the modes are fitted to unit-cube particles: location inside the bounding box of the pool's u, scale of a sub-cube cloud
+        pool = np.concatenate(located_state[0].state._history["u"]) if located_state else None
+        if pool is not None:
+            lo, hi = pool.min(axis=0) - 1e-12, pool.max(axis=0) + 1e-12
+            for j in range(ms_.K):
+                if np.any(ms_.means[j] < lo) or np.any(ms_.means[j] > hi) or np.max(np.diag(ms_.covariances[j])) > 1.0:
+                    located.append((j, ms_.means[j].tolist(), np.diag(ms_.covariances[j]).tolist()))
+                sd_ = np.sqrt(np.diag(ms_.covariances[j]))
+                P = (ms_.inv_covariances[j] @ ms_.covariances[j]) * sd_[:, None] / sd_[None, :]
+                if not np.allclose(P, np.eye(len(P)), atol=1e-6):
+                    located.append((j, "inverse", P.tolist()))
         return orig(*a, **k)
+    located_state = []
     mut.parallel_mcmc = pm
     try:
         for cfg in (dict(clustering=False), dict(clustering=True, cluster_every=1), dict(clustering=True, cluster_every=2)):
             del seen[:]
-            s = Sampler(lambda u: 6 * u - 3, lambda x: -0.5 * float(np.sum(x ** 2)), n_dim=2, n_particles=16, random_state=5, **cfg)
+            del located[:]
+            s = Sampler(lambda u: 10 * u + 5, lambda x: -0.5 * float(np.sum((x - 10.0) ** 2)), n_dim=2, n_particles=16, random_state=5, **cfg)
+            located_state[:] = [s]
             s.run(n_total=32, progress=False)
             run.case(key=("fallback-e2e", str(cfg)), nontrivial=True)
+            if located:
+                j, m_, v_ = located[0]
+                run.fail("mode-not-fitted-to-the-unit-cube-particles", f"Sampler({cfg}) with prior transform x = 10u + 5: the kernel received mode {j} with "
+                         f"location / check {m_}, variances {v_}: not a fit of the stored unit-cube particles (or an inverse that is not the inverse)", cfg=cfg)
             bad = [d for d in seen if any(v != cfgmod.DOF_FALLBACK for v in d)]
             if not seen or bad:
                 run.fail("nonfinite-dof-reaches-kernel" if bad and not all(np.isfinite(bad[0])) else "fallback-not-the-configured-one",
@@ -324,12 +409,15 @@ def main(tier, seed):
                 "laws: finite location in the bounding box, symmetric positive-definite scale, positive dof; metamorphic "
                 "check fit(g(X)) = g(fit(X)) for per-coordinate scalings 1e-6..1e6, translations and coordinate "
                 "permutations; recovery on 20000-point t samples; one real ECME iteration replayed exactly (Q) through the "
-                "Coq twin with the code's nu as oracle; the dof fallback with a stubbed fit.")
+                "Coq twin with the code's nu as oracle; the starting point (max_iter=0, and every fit that returns with nu = inf) against the "
+                "exact-Q twin `init` on dyadic data incl. ties at the median and scales 2^-10..2^10; the dof fallback with a stubbed fit; "
+                "per-cluster modes (precision = inverse of the scale under per-coordinate scalings 1e-6..1e6); real runs: modes at the kernel "
+                "entry are fits of the stored unit-cube particles.")
     run.assumptions = [
         "the dof update (digamma root by bisection) is an oracle of the Mahalanobis distances, d and n",
         "numpy.linalg.solve is the exact solution; float rounding idealised (tolerances 1e-5 relative in the metamorphic check)",
-        "equivariance of the initial values (median, covariance) under scalings/translations/permutations is checked "
-        "numerically only; recovery of generating parameters is statistical and checked on seeded samples only",
+        "the theorems on the starting point (C19_init_*) are over an arbitrary real field; on doubles the equivariance is checked "
+        "numerically; recovery of generating parameters is statistical and checked on seeded samples only",
     ]
     rng = random.Random(seed)
     try:
@@ -337,10 +425,11 @@ def main(tier, seed):
         run.obligation("translate:fit_mvstud structure + dof fallback", True)
     except Exception as e:  # fail closed: anything the translator cannot digest
         run.obligation("translate:fit_mvstud structure + dof fallback", False, str(e))
-    run.prove("Props/C19.v", link_rels=["Link/Student.v"])
+    run.prove("Props/C19.v", link_rels=["Link/Student.v"], extra_targets=["Model/StudentQ.v"])
     try:
         check_fit(run, tier, rng)
         check_step_model(run, tier, rng)
+        check_init_model(run, tier, rng)
         check_fallback(run)
         check_per_cluster(run, rng)
         check_fallback_end_to_end(run)
